@@ -604,6 +604,9 @@ class CallMixin:
                 r = self.fresh_of(st.get('returns', 'none'), 'stub_' + f.name)
             self.st.ghost['stub_result_' + f.name] = r
             self.st.ghost[ck] = r
+            if st.get('assign_first_arg_to') and f.bound is not None and f.bound.k == 'obj' and args:
+                # an abstract setter that stores its argument unchanged (identity conversion) in the named field
+                self.st.heap[f.bound.t].f[st['assign_first_arg_to']] = args[0]
             for g, e_ in st.get('ghost_set', {}).items():
                 self.st.ghost[g] = self.ev_spec(e_, dict(self.st.frames[0].env))
             return r
